@@ -9,5 +9,6 @@ CONSTANTS
   Offs <- OffsQ
   Needles <- NeedlesQ
   Fns <- FnsAll
+  Spell <- SpellQ
 INVARIANT Emit
 CHECK_DEADLOCK FALSE
